@@ -196,11 +196,12 @@ class EvolveAppTask(BaseEvolutionTask):
 
         logger.debug('New models: %r', new_models)
 
-        if migrating:
+        if migration_executor is not None:
             # If we have any applied migration names we wanted to record, do it
-            # before we begin any migrations.
+            # before we begin any migrations (or even if there are none left
+            # to run).
             applied_migrations = \
-                state['migration_executor'].loader.extra_applied_migrations
+                migration_executor.loader.extra_applied_migrations
 
             if applied_migrations:
                 record_applied_migrations(connection=evolver.connection,
@@ -557,10 +558,14 @@ class EvolveAppTask(BaseEvolutionTask):
             post_migration_plan = None
             post_migration_targets = None
 
+        # Evolutions may depend on migrations that are already applied or
+        # are about to be marked as applied, even if there's nothing left
+        # to execute. The graph always needs to know about those.
+        result['to_mark_applied'] = migrations_to_mark_applied
+
         if pre_migration_plan or post_migration_plan:
             result.update({
                 'full_plan': full_migration_plan,
-                'to_mark_applied': migrations_to_mark_applied,
                 'post_plan': post_migration_plan,
                 'post_targets': post_migration_targets,
                 'pre_plan': pre_migration_plan,
